@@ -202,3 +202,7 @@ PROPS['C13'] = dict(
     level_text="The check re-discharges the obligations of the functions whose postconditions carry the presentation-freeness (backward search, node steps, strategy lists, all conditioning methods): a change that makes the outcome depend on adjacency, list position or action-name order breaks one of them (the property's own example, in-place removal while iterating, is exactly what C03's Filter postcondition rejects). The relational statement itself is exercised by the bounded executable contract: random state permutations fixing 0, per-state transition shuffles and injective renamings on acyclic games, comparing all outputs.",
     level_note="Proof level refers to the per-function obligations only; the two-run relation is bounded. Trusted: z3/cvc5, the encoder.",
 )
+
+for _p in ('C01', 'C02', 'C04', 'C05', 'C14', 'C06'):
+    PROPS[_p].setdefault('static', [])
+    PROPS[_p]['static'] = list(PROPS[_p]['static']) + [('solver-constants-threshold-1e-6-and-6-digits', ST.solver_constants)]
